@@ -62,6 +62,9 @@ Record lstate := mkL {
 
 Definition init_state (data : str) : lstate := mkL data (mkPos 1 1 0) [].
 
+(* list reversal in linear time (List.rev is quadratic); frev l = rev l *)
+Definition frev {A} (l : list A) : list A := rev_append l [].
+
 (* read.go isIdent, regenerated from the source *)
 Definition is_ident (c : Z) : bool := modfile_isIdent c.
 
@@ -86,7 +89,7 @@ Definition read_rune (st : lstate) : option (Z * lstate) :=
       let p := ls_pos st in
       let p' := if r =? 10 then mkPos (p_line p + 1) 1 (p_byte p + Z.of_nat w)
                 else mkPos (p_line p) (p_col p + 1) (p_byte p + Z.of_nat w) in
-      Some (r, mkL (skipn w (ls_rem st)) p' (rev (firstn w (ls_rem st)) ++ ls_done st))
+      Some (r, mkL (skipn w (ls_rem st)) p' (rev_append (firstn w (ls_rem st)) (ls_done st)))
   end.
 
 Inductive tok_result :=
@@ -97,9 +100,9 @@ Inductive tok_result :=
 
 (* the text between startToken and endToken; comment tokens lose one trailing LF or CRLF *)
 Definition strip_eol (s : str) : str :=
-  match rev s with
-  | 10 :: 13 :: r => rev r
-  | 10 :: r => rev r
+  match frev s with
+  | 10 :: 13 :: r => frev r
+  | 10 :: r => frev r
   | _ => s
   end.
 
@@ -118,7 +121,7 @@ Definition has_non_space (b : str) : bool :=
 
 (* in.complete[i+1:in.pos.Byte] for i the index of the last LF before in.pos *)
 Definition line_so_far (st : lstate) : str :=
-  rev (fst (span (fun c => negb (c =? 10)) (ls_done st))).
+  frev (fst (span (fun c => negb (c =? 10)) (ls_done st))).
 
 (* "for len(in.remaining) > 0 && in.readRune() != '\n' {}" *)
 Fixpoint comment_body (f : nat) (st : lstate) : option (option lstate) :=
@@ -230,20 +233,21 @@ Fixpoint read_token (f : nat) (st : lstate) : tok_result :=
 (* how the token stream ends *)
 Inductive lex_end := LEnd | LErr (p : position) (e : err_class) | LPanic | LFuel.
 
-Fixpoint lex_all (f : nat) (st : lstate) : list token * lex_end :=
+(* [acc] holds the tokens read so far, last first *)
+Fixpoint lex_all (f : nat) (st : lstate) (acc : list token) : list token * lex_end :=
   match f with
-  | O => ([], LFuel)
+  | O => (frev acc, LFuel)
   | S f' =>
       match read_token f' st with
       | TTok t st' =>
-          if is_eof (t_kind t) then ([t], LEnd)
-          else let (ts, e) := lex_all f' st' in (t :: ts, e)
-      | TErr p e => ([], LErr p e)
-      | TPanic => ([], LPanic)
-      | TFuel => ([], LFuel)
+          if is_eof (t_kind t) then (frev (t :: acc), LEnd)
+          else lex_all f' st' (t :: acc)
+      | TErr p e => (frev acc, LErr p e)
+      | TPanic => (frev acc, LPanic)
+      | TFuel => (frev acc, LFuel)
       end
   end.
 
 Definition lex_fuel (data : str) : nat := (length data + 3)%nat.
 
-Definition lex (data : str) : list token * lex_end := lex_all (lex_fuel data) (init_state data).
+Definition lex (data : str) : list token * lex_end := lex_all (lex_fuel data) (init_state data) [].
